@@ -11,6 +11,8 @@ import (
 	"regexp"
 	"sort"
 	"strconv"
+	"strings"
+	"sync"
 )
 
 type propDef struct {
@@ -198,6 +200,74 @@ func selfTest(r *Run, repo, verif string) {
 			}
 		}()
 	}
+	// the other direction: behaviour-preserving refactorings (extract/inline helper, renamed locals, if-chain <-> switch,
+	// closures handed to shared helpers, ...) must not make this property's check report
+	benign, _ := filepath.Glob(filepath.Join(verif, "benign", "*.diff"))
+	sort.Strings(benign)
+	type bres struct {
+		Name    string `json:"name"`
+		Outcome string `json:"outcome"` // silent | reported | not_applicable
+	}
+	bout := make([]bres, len(benign))
+	sem := make(chan struct{}, 8)
+	var wgB sync.WaitGroup
+	for i, bp := range benign {
+		wgB.Add(1)
+		go func(i int, bp string) {
+			defer wgB.Done()
+			sem <- struct{}{}
+			defer func() { <-sem }()
+			name := strings.TrimSuffix(filepath.Base(bp), ".diff")
+			bout[i] = bres{Name: name, Outcome: "not_applicable"}
+			tmp, err := os.MkdirTemp("", "vlcheck-selftest-")
+			if err != nil {
+				return
+			}
+			defer os.RemoveAll(tmp)
+			tree := filepath.Join(tmp, "tree")
+			ev := filepath.Join(tmp, "verif")
+			os.MkdirAll(filepath.Join(ev, "evidence"), 0o755)
+			os.WriteFile(filepath.Join(ev, "MANIFEST.json"), []byte("{}"), 0o644)
+			if kf, err := os.ReadFile(filepath.Join(verif, "known_findings.json")); err == nil {
+				os.WriteFile(filepath.Join(ev, "known_findings.json"), kf, 0o644)
+			}
+			if exec.Command("rsync", "-a", "--exclude", ".git", repo+"/", tree+"/").Run() != nil {
+				return
+			}
+			ap := exec.Command("patch", "-p1", "-s", "-f", "-i", bp)
+			ap.Dir = tree
+			if ap.Run() != nil {
+				return
+			}
+			c := exec.Command(exe, "-property", r.Property, "-tier", "quick", "-repo", tree, "-verif", ev)
+			c.Env = append(os.Environ(), "VLCHECK_NO_SELFTEST=1")
+			c.CombinedOutput()
+			switch c.ProcessState.ExitCode() {
+			case 0:
+				bout[i].Outcome = "silent"
+			case 1:
+				bout[i].Outcome = "reported"
+			}
+		}(i, bp)
+	}
+	wgB.Wait()
+	silent, reported := 0, 0
+	for _, b := range bout {
+		switch b.Outcome {
+		case "silent":
+			silent++
+		case "reported":
+			reported++
+		}
+	}
+	r.extra["selftest_benign"] = map[string]interface{}{
+		"what":     "behaviour-preserving refactorings (written by sub-agents that saw only the source) applied one at a time to a scratch copy of the current tree; the quick check must stay silent on each",
+		"applied":  silent + reported,
+		"silent":   silent,
+		"reported": reported,
+		"results":  bout,
+	}
+	fmt.Printf("  selftest: %d behaviour-preserving refactoring(s) applied to a scratch copy, %d silent, %d reported\n", silent+reported, silent, reported)
 	r.extra["selftest"] = map[string]interface{}{
 		"what":           "seeded breaking changes (written by sub-agents that saw only the property text) applied one at a time to a scratch copy of the current tree; the quick check must report each",
 		"applied":        applied,
